@@ -413,6 +413,7 @@ type cdcWorker struct {
 	deadRuns map[string]int
 	deadWhy  map[string]string
 	Single   bool // replay mode: never use the always-dies shortcut
+	Timeout  time.Duration
 }
 
 type cdcTail struct {
@@ -434,7 +435,7 @@ func (t *cdcTail) Write(p []byte) (int, error) {
 func (t *cdcTail) String() string { t.mu.Lock(); defer t.mu.Unlock(); return string(t.buf) }
 
 func cdcNewWorker(testName string) *cdcWorker {
-	return &cdcWorker{test: testName, memKB: 3 * 1024 * 1024}
+	return &cdcWorker{test: testName, memKB: 3 * 1024 * 1024, Timeout: 90 * time.Second}
 }
 
 func (w *cdcWorker) start() {
@@ -482,7 +483,9 @@ func (w *cdcWorker) call(req *cdcReq) cdcResp {
 		return cdcResp{Died: "(cached) " + w.deadWhy[req.Codec]}
 	}
 	r := w.call1(req)
-	if r.Died != "" {
+	if r.Died != "" && !strings.Contains(r.Died, "stack overflow") {
+		w.deadRuns[req.Codec] = -1 << 30 // only unconditional recursion is worth caching
+	} else if r.Died != "" {
 		if w.deadRuns[req.Codec] >= 0 {
 			w.deadRuns[req.Codec]++
 			w.deadWhy[req.Codec] = r.Died
@@ -529,14 +532,14 @@ func (w *cdcWorker) call1(req *cdcReq) cdcResp {
 	var res result
 	select {
 	case res = <-done:
-	case <-time.After(90 * time.Second):
+	case <-time.After(w.Timeout):
 		w.cmd.Process.Kill()
 		res = <-done
 		w.cmd.Wait()
 		w.rpipe.Close()
 		w.cmd = nil
 		w.Deaths++
-		return cdcResp{Died: "no answer within 90 s (worker killed)"}
+		return cdcResp{Died: fmt.Sprintf("no answer within %v (worker killed)", w.Timeout)}
 	}
 	if res.err == nil {
 		return res.resp
